@@ -441,7 +441,24 @@ def filter_citations(citations: List[CitationBase]) -> List[CitationBase]:
 
     # Overlaps are detected in full-span order, but the result is documented
     # to be ordered by citation span
-    return sorted(filtered_citations, key=lambda citation: citation.span())
+    ordered_citations = sorted(
+        filtered_citations, key=lambda citation: citation.span()
+    )
+
+    # A reference citation can still overlap a citation that was not its
+    # neighbour in full-span order; again prefer anything to a reference
+    result: List[CitationBase] = []
+    for citation in ordered_citations:
+        if result and overlapping_citations(
+            result[-1].span(), citation.span()
+        ):
+            if isinstance(citation, ReferenceCitation):
+                continue
+            if isinstance(result[-1], ReferenceCitation):
+                result.pop(-1)
+        result.append(citation)
+
+    return result
 
 
 joke_cite: List[CitationBase] = [
